@@ -95,6 +95,10 @@ fn net_rule(r: &mut Rng) -> String {
     }
     if r.chance(1, 5) {
         o.push(r.ps(&["third-party", "~third-party", "1p", "3p"]).to_string());
+        if r.chance(1, 5) {
+            // both parties spelt out (legal; the mask then carries neither party bit)
+            o.push(r.ps(&["first-party", "~third-party", "1p", "3p", "third-party", "~1p"]).to_string());
+        }
     }
     if r.chance(1, 4) {
         let mut d = String::from(r.ps(&["domain=", "domain=", "from="]));
